@@ -857,8 +857,11 @@ C08_TRUST = [
     "is present, expired nodes removed only by the cleanup goroutine; watched by kind cachehist on the real clock",
     "C08: the cache key and the value encoding (pack + s2) are C07's; here keys are opaque and the stored value is "
     "the message",
-    "C08: redis backend not exercised (no server in the sandbox); uint32(float64 seconds) modelled as truncation mod "
-    "2^32 (exact below 2^24 s; amd64 conversion through int64)",
+    "C08: no redis server exists in the sandbox: kind promote runs the real cache.RedisCache (rueidis, RESP2, no client "
+    "cache) against an in-process fake (PING, GET, SET [NX] PX with exact ms expiry on the process clock); redis is "
+    "modelled (Cache/CacheTier.v) as a map with a deadline per key that may forget any key; clock skew between hosts "
+    "sharing a redis is outside the model's assumptions; uint32(float64 seconds) modelled as truncation mod 2^32 (exact "
+    "below 2^24 s; amd64 conversion through int64)",
 ]
 
 PROPS["C08"] = dict(
@@ -896,7 +899,13 @@ PROPS["C08"] = dict(
          "routerhist: a real router (real run(), real tcp upstream transport, forward-all rule, memory cache) fed client "
          "queries through handleServerReq against a scripted upstream (positive / NXDOMAIN / NODATA / SERVFAIL / REFUSED / "
          "TC / connection closed); observed per query: upstream contacted or not, rcode, TC, answer TTLs; the model walks "
-         "handle_req_store (only miss + reply stores). distinct = distinct case line",
+         "handle_req_store (only miss + reply stores). storeat: real-clock histories with direct MemoryCache.Store calls "
+         "(what cacheCtl.Get does when it promotes a redis hit) whose storedTime lies 0 s .. 1 year in the past and whose "
+         "expireTime is 0.4-3.4 s ahead, set-if-absent or not, mixed with ordinary stores, probed before expireTime, within "
+         "2 s after it and later; model event EvStoreAt. promote: the real cacheCtl with memory + redis backend (in-process "
+         "RESP2 fake): own stores whose memory copy is dropped late in the lifetime and answers another instance fetched up "
+         "to a year ago, read back through cacheCtl.Get (redis hit, promotion), probed after fetch + lifetime + 2 s; model "
+         "Cache/CacheTier.v over 20 ticker phases x 40 Unix-second phases. distinct = distinct case line",
     assumptions=["otter clock model (see trusted base); cachehist ops are scheduled >= 200 ms away from whole-second "
                  "distances to the stores they depend on, and a case whose ops ran > 150 ms late is re-run once, then "
                  "reported as a harness note, never as an alarm; a real-clock case that passes the property oracle but "
@@ -906,5 +915,7 @@ PROPS["C08"] = dict(
     trusted=C08_TRUST,
     level_note="C08 proof: TTL ageing, lifetime table (no overflow up to 2^32-1), never-cached and set-if-absent "
                "theorems hold for all messages / histories of the model; the expiry bound is proved under the stated "
-               "otter clock model (real clocks are sampled by kind cachehist); redis path not exercised",
+               "otter clock model for every storedTime (direct MemoryCache.Store, promotion of a redis hit) and for the "
+               "two-tier model memory + redis (real clocks are sampled by kinds cachehist, storeat, promote; redis is an "
+               "in-process fake)",
 )
